@@ -102,13 +102,15 @@ def image():
     return _IMAGE
 
 
-def run_replay(entry, inputs, mem, default=0, timeout=60):
+def run_replay(entry, inputs, mem, default=0, timeout=60, inputs64=None):
     """Run the native replay binary. -> dict(ret, out{idx:val}, stores[(addr,val)])"""
     b = ensure_built(verbose=False)
     with tempfile.NamedTemporaryFile("w", suffix=".in", delete=False) as f:
         f.write(f"default {default}\n")
         for i, v in inputs.items():
             f.write(f"in {i} {v}\n")
+        for i, v in (inputs64 or {}).items():
+            f.write(f"in64 {i} {v}\n")
         for a, v in mem.items():
             f.write(f"mem {a} {v}\n")
         path = f.name
@@ -116,13 +118,15 @@ def run_replay(entry, inputs, mem, default=0, timeout=60):
         cp = subprocess.run([b["replay"], entry, path], capture_output=True, text=True, timeout=timeout)
     finally:
         os.unlink(path)
-    res = {"ret": None, "out": {}, "stores": [], "rc": cp.returncode, "stderr": cp.stderr[-500:]}
+    res = {"ret": None, "out": {}, "out64": {}, "stores": [], "rc": cp.returncode, "stderr": cp.stderr[-500:]}
     for line in cp.stdout.splitlines():
         p = line.split()
         if p[0] == "ret":
             res["ret"] = int(p[1])
         elif p[0] == "out":
             res["out"][int(p[1])] = int(p[2])
+        elif p[0] == "out64":
+            res["out64"][int(p[1])] = int(p[2])
         elif p[0] == "st":
             res["stores"].append((int(p[1]), int(p[2])))
     return res
